@@ -214,24 +214,39 @@ Theorem C06_cont_fixed_refuses_overflow_bitset :
 Proof. exact cont_fixed_refuses_overflow_bitset. Qed.
 Print Assumptions C06_cont_fixed_refuses_overflow_bitset.
 
-(** vector<string>: checks and formats are applied to every element before the
-    unique test ([conv_str] = the checked and formatted element); without
-    unique data the destination is the earlier content followed by these
-    values in order (sorted in byte order if so configured). *)
+(** vector<string>: checks, then the general formats, then the formats of the
+    position the element lands at (= current size of the destination) are
+    applied before the unique test.  Without unique data every element is
+    stored, so element i of all elements given - whatever the cut into value
+    strings and free values - lands at position |earlier content| + i
+    ([pos_vals]); sorted in byte order if so configured. *)
 Theorem C06_cont_strs_content :
   forall p o st u rest st' l0,
     o_uniq o = false -> c_val st = CStrs l0 ->
     run_uses_gen (step_gen p KVecStr o) o st (u :: rest) = Ok st' ->
-    exists l vals, c_val st' = CStrs l /\
-      Forall2 (fun t v => conv_str o t = Ok v) (all_tokens o (u :: rest)) vals /\
+    let vals := pos_vals o (length (start_strs st l0)) (all_tokens o (u :: rest)) in
+    exists l, c_val st' = CStrs l /\
       (o_sort o = false -> l = start_strs st l0 ++ vals) /\
       (o_sort o = true -> l = sort_by str_ltb (start_strs st l0 ++ vals)).
 Proof. exact cont_strs_content. Qed.
 Print Assumptions C06_cont_strs_content.
 
+(** unique data: never two equal strings, with or without position formats *)
+Theorem C06_cont_strs_unique_nodup :
+  forall p o st u rest st' l0,
+    o_uniq o = true ->
+    c_val st = CStrs l0 -> NoDup (start_strs st l0) ->
+    run_uses_gen (step_gen p KVecStr o) o st (u :: rest) = Ok st' ->
+    exists l, c_val st' = CStrs l /\ NoDup l.
+Proof. exact cont_strs_unique_nodup. Qed.
+Print Assumptions C06_cont_strs_unique_nodup.
+
+(** unique data, dropping, no position formats ([pos_free]; with position
+    formats a dropped duplicate shifts the position of its successors, the
+    content is then given by [C06_cont_fold] only) *)
 Theorem C06_cont_strs_unique_drop :
   forall p o st u rest st' l0,
-    o_uniq o = true -> o_dup_err o = false ->
+    pos_free o -> o_uniq o = true -> o_dup_err o = false ->
     c_val st = CStrs l0 -> NoDup (start_strs st l0) ->
     run_uses_gen (step_gen p KVecStr o) o st (u :: rest) = Ok st' ->
     exists l, c_val st' = CStrs l /\ NoDup l /\
@@ -240,17 +255,72 @@ Theorem C06_cont_strs_unique_drop :
 Proof. exact cont_strs_unique_drop. Qed.
 Print Assumptions C06_cont_strs_unique_drop.
 
+(** unique data, refusing: accepted only if all (position-formatted) values are new *)
 Theorem C06_cont_strs_unique_refuse :
   forall p o st u rest st' l0,
     o_uniq o = true -> o_dup_err o = true ->
     c_val st = CStrs l0 -> NoDup (start_strs st l0) ->
     run_uses_gen (step_gen p KVecStr o) o st (u :: rest) = Ok st' ->
-    exists l vals, c_val st' = CStrs l /\
-      Forall2 (fun t v => conv_str o t = Ok v) (all_tokens o (u :: rest)) vals /\
+    let vals := pos_vals o (length (start_strs st l0)) (all_tokens o (u :: rest)) in
+    exists l, c_val st' = CStrs l /\
       Permutation l (start_strs st l0 ++ vals) /\ NoDup (start_strs st l0 ++ vals) /\
       (o_sort o = false -> l = start_strs st l0 ++ vals).
 Proof. exact cont_strs_unique_refuse. Qed.
 Print Assumptions C06_cont_strs_unique_refuse.
+
+(** std::tuple<int,string,int>: element k of the result is the k-th value given
+    over all uses, formatted with the formats of position k (and no others) and
+    converted to the element's type - independent of how the values are cut
+    into value strings and free values; elements not given keep their value. *)
+Theorem C06_cont_tuple_elements :
+  forall p o st u rest st' a0 s0 b0 n0,
+    c_val st = CTuple a0 s0 b0 n0 ->
+    run_uses_gen (step_gen p KTuple o) o st (u :: rest) = Ok st' ->
+    exists a s b, c_val st' = CTuple a s b (n0 + length (all_tokens o (u :: rest))) /\
+      (forall j t, nth_error (all_tokens o (u :: rest)) j = Some t -> tuple_elem_ok o a s b (n0 + j) t) /\
+      (n0 + length (all_tokens o (u :: rest)) <= 0 \/ 0 < n0 -> a = a0) /\
+      (n0 + length (all_tokens o (u :: rest)) <= 1 \/ 1 < n0 -> s = s0) /\
+      (n0 + length (all_tokens o (u :: rest)) <= 2 \/ 2 < n0 -> b = b0).
+Proof. exact cont_tuple_elements. Qed.
+Print Assumptions C06_cont_tuple_elements.
+
+(** ... and the whole state of the tuple argument does not depend on the cut
+    (instance of the general theorem; the tuple has a cardinality, so no use
+    without elements). *)
+Corollary C06_cont_tuple_cut_independent :
+  forall o st uses1 uses2,
+    setup_ok KTuple o = true -> card_cut_ok o uses1 -> card_cut_ok o uses2 ->
+    all_tokens o uses1 = all_tokens o uses2 -> is_nil uses1 = is_nil uses2 ->
+    run_uses KTuple o st uses1 = run_uses KTuple o st uses2.
+Proof. exact (cont_cut_independent KTuple). Qed.
+Print Assumptions C06_cont_tuple_cut_independent.
+
+(** T[N] / std::array<T,N> without unique data: slot i0 + i gets the i-th value
+    of all uses (general and position formats applied - without effect on how
+    a text converts to int, [lex_int_fmt_pos]); sorted part if so configured. *)
+Theorem C06_cont_array_content :
+  forall p k n o st u rest st' l0 i0,
+    arr_kind k n -> o_uniq o = false -> c_val st = CArr l0 i0 ->
+    run_uses_gen (step_gen p k o) o st (u :: rest) = Ok st' ->
+    exists l vals, c_val st' = CArr l (i0 + length (all_tokens o (u :: rest))) /\
+      Forall2 (fun t v => conv_int o t = Ok v) (all_tokens o (u :: rest)) vals /\
+      (o_sort o = false -> firstn (i0 + length vals) l = firstn i0 l0 ++ vals) /\
+      (o_sort o = true -> firstn (i0 + length vals) l = sort_by Z.ltb (firstn i0 l0 ++ vals)).
+Proof. exact cont_array_content. Qed.
+Print Assumptions C06_cont_array_content.
+
+(** formats (upper / lower case) never change how a text converts to int, so
+    general and position formats are invisible on the int destinations *)
+Theorem C06_formats_invisible_on_int :
+  forall o idx s, lex_int (fmt_pos o idx (apply_fmts (o_fmts o) s)) = lex_int s.
+Proof. intros. rewrite lex_int_fmt_pos. apply lex_int_fmts. Qed.
+Print Assumptions C06_formats_invisible_on_int.
+
+(** the range rule of TypedArgBase::format never hides a registered format *)
+Theorem C06_fmt_pos_range_rule :
+  forall o idx s, fmt_pos o idx s = apply_fmts (nth (idx + 1) (o_ftab o) []) s.
+Proof. exact fmt_pos_nth. Qed.
+Print Assumptions C06_fmt_pos_range_rule.
 
 (** map<string,int>: keys stay strictly ascending; an entry that was there
     before keeps its value; otherwise the FIRST element with that key decides
@@ -296,17 +366,54 @@ Print Assumptions C06_cont_map_cut_independent.
 
 (** The accept / refuse table of the definition-time setters, as the model has
     it (tied to setSortData / setUniqueData / setClearBeforeAssign / addFormat /
-    setListSep by the correspondence check: every refused subset is a case). *)
+    addFormatPos / setListSep by the correspondence check: every refused
+    subset is a case). *)
 Theorem C06_setup_table :
   forall k o,
     setup_ok k o = true <->
     (o_sort o = true -> sortable k = true) /\
     (o_uniq o = true -> has_iter k = true) /\
     (o_clear o = true -> clearable k = true) /\
-    (o_fmts o <> [] -> k <> KTuple) /\
+    ftab_ok k (o_ftab o) = true /\
     (k = KMap -> o_sep o <> COMMA).
 Proof. exact setup_ok_table. Qed.
 Print Assumptions C06_setup_table.
+
+Theorem C06_ftab_table :
+  forall k tab,
+    ftab_ok k tab = true <->
+    (nth 0 tab [] <> [] -> k <> KTuple) /\
+    (forall i, nth (S i) tab [] <> [] -> pos_fmt_allowed k i = true).
+Proof. exact ftab_ok_table. Qed.
+Print Assumptions C06_ftab_table.
+
+(** addFormatPos( idx, f), idx >= -1: accepted by std::vector for every idx, by
+    the arrays for idx < N, by the tuple for 0 <= idx < length, refused by
+    everybody else; what addFormat / addFormatPos accepted is a table of that kind. *)
+Theorem C06_add_format_pos_table :
+  forall k tab idx f,
+    (-1 <= idx)%Z ->
+    (is_ok (add_format_pos k tab idx f) = true <->
+     match k with
+     | KVec | KVecStr => True
+     | KArr n | KStdArr n => (idx < Z.of_nat n)%Z
+     | KTuple => (0 <= idx < 3)%Z
+     | _ => False
+     end).
+Proof. exact add_format_pos_table. Qed.
+Print Assumptions C06_add_format_pos_table.
+
+Theorem C06_add_format_pos_ok :
+  forall k tab idx f tab',
+    ftab_ok k tab = true -> add_format_pos k tab idx f = Ok tab' -> ftab_ok k tab' = true.
+Proof. exact add_format_pos_ok. Qed.
+Print Assumptions C06_add_format_pos_ok.
+
+Theorem C06_add_format_ok :
+  forall k tab f tab',
+    ftab_ok k tab = true -> add_format k tab f = Ok tab' -> ftab_ok k tab' = true.
+Proof. exact add_format_ok. Qed.
+Print Assumptions C06_add_format_ok.
 
 Theorem C06_sortable_table :
   forall k, sortable k = true <->
@@ -356,7 +463,7 @@ Print Assumptions C06_pinned_vector_bool_refuted.
     something on concrete cases. *)
 Definition o_all : copts :=
   {| o_sep := 44; o_clear := true; o_sort := true; o_uniq := true; o_dup_err := false; o_multi := true;
-     o_checks := [CLower 0]; o_fmts := []; o_card := CardNone |}.
+     o_checks := [CLower 0]; o_ftab := []; o_card := CardNone |}.
 
 (** "3,1" then "2,3" on a vector holding [7;3], clear + sort + unique: [1;2;3] *)
 Example C06_nonvacuous_fold :
@@ -390,7 +497,7 @@ Proof. vm_compute; reflexivity. Qed.
 (** "-l 1 2 -f 9" with a multi-value vector and the flag -f: refused; "-l 1 2 -f" accepted *)
 Definition o_multi_only : copts :=
   {| o_sep := 44; o_clear := false; o_sort := false; o_uniq := false; o_dup_err := false; o_multi := true;
-     o_checks := []; o_fmts := []; o_card := CardNone |}.
+     o_checks := []; o_ftab := []; o_card := CardNone |}.
 Example C06_nonvacuous_flag :
   is_ok (eval KVec o_multi_only (CInts []) [[45; 102]]%N [[45; 108]; [49]; [50]; [45; 102]; [57]]%N) = false /\
   option_map (fun r => (c_val (fst r), snd r))
@@ -410,8 +517,33 @@ Example C06_nonvacuous_strs :
   option_map c_val
     (match run_uses KVecStr
              {| o_sep := 44; o_clear := false; o_sort := false; o_uniq := true; o_dup_err := false; o_multi := false;
-                o_checks := []; o_fmts := [FUpper]; o_card := CardNone |}
+                o_checks := []; o_ftab := [[FUpper]]; o_card := CardNone |}
              {| c_val := CStrs []; c_clearp := false; c_cnt := 0 |}
              [[97; 98; 44; 65; 66; 44; 99]%N] with
      | Ok s => Some s | _ => None end) = Some (CStrs [[65; 66]; [67]]%N).
+Proof. vm_compute; reflexivity. Qed.
+
+(** tuple with "upper" on position 1: "7,aBc,9" / "7" "aBc,9" / "7" "aBc" "9" all give (7,"ABC",9) *)
+Definition o_tuple_pos : copts :=
+  {| o_sep := 44; o_clear := false; o_sort := false; o_uniq := false; o_dup_err := false; o_multi := true;
+     o_checks := []; o_ftab := [[]; []; [FUpper]]; o_card := CardExact 3 |}.
+Example C06_nonvacuous_tuple_pos :
+  setup_ok KTuple o_tuple_pos = true /\
+  let r uses := option_map c_val (match run_uses KTuple o_tuple_pos
+                                          {| c_val := CTuple 0 [] 0 0; c_clearp := false; c_cnt := 0 |} uses with
+                                   | Ok s => Some s | _ => None end) in
+  r [[55; 44; 97; 66; 99; 44; 57]]%N = Some (CTuple 7 [65; 66; 67]%N 9 3) /\
+  r [[55]; [97; 66; 99; 44; 57]]%N = Some (CTuple 7 [65; 66; 67]%N 9 3) /\
+  r [[55]; [97; 66; 99]; [57]]%N = Some (CTuple 7 [65; 66; 67]%N 9 3).
+Proof. split; [|split; [|split]]; vm_compute; reflexivity. Qed.
+
+(** vector<string> holding ["k"], "lower" on position 1, "upper" on 2: "Ab" "Cd" land at 1 and 2 *)
+Example C06_nonvacuous_strs_pos :
+  option_map c_val
+    (match run_uses KVecStr
+             {| o_sep := 44; o_clear := false; o_sort := false; o_uniq := false; o_dup_err := false; o_multi := false;
+                o_checks := []; o_ftab := [[]; []; [FLower]; [FUpper]]; o_card := CardNone |}
+             {| c_val := CStrs [[107%N]]; c_clearp := false; c_cnt := 0 |}
+             [[65; 98]; [67; 100]]%N with
+     | Ok s => Some s | _ => None end) = Some (CStrs [[107]; [97; 98]; [67; 68]]%N).
 Proof. vm_compute; reflexivity. Qed.
